@@ -44,6 +44,14 @@ import (
 	"verif/harness/kit"
 )
 
+// documentedDash: the only fields the library documents as excluded from a
+// checkpoint are memprotocol's Info ("The Info field on these messages is
+// tagged json:\"-\" and is not checkpointed", mem/memprotocol/protocol.go).
+// Every other field is expected to come back, whatever its tag says.
+func documentedDash(owner reflect.Type, f reflect.StructField) bool {
+	return f.Name == "Info" && strings.HasSuffix(owner.PkgPath(), "/mem/memprotocol")
+}
+
 type checkpointable interface {
 	SaveCheckpoint(w io.Writer) error
 	LoadCheckpoint(r io.Reader) error
@@ -210,7 +218,7 @@ func c08PortRoundTrip(c c08MsgCase, in, out []messaging.Msg, compareBytes bool) 
 			r.Sig, r.Msg = "port-resave-error", err.Error()
 			return
 		}
-		if !bytes.Equal(b2.Bytes(), r.Bytes) {
+		if compareBytes && !bytes.Equal(b2.Bytes(), r.Bytes) {
 			r.Sig, r.Msg = "port-reencode-differs", fmt.Sprintf("first checkpoint %s, checkpoint of the restored port %s", r.Bytes, b2.Bytes())
 			return
 		}
@@ -270,6 +278,13 @@ func TestC08ValuesMessages(t *testing.T) {
 	defer s.End()
 	s.Assume("protocol list = the six DefineProtocol call sites in /repo outside examples/ and tests; bare MsgMeta belongs to no protocol and is not registered")
 	s.Extra("message_types", names)
+	sites := countCallSites("DefineProtocol(", "RegisterMsg(")
+	s.Extra("source_scan_DefineProtocol_call_sites", sites["DefineProtocol("])
+	s.Extra("source_scan_RegisterMsg_call_sites", sites["RegisterMsg("])
+	s.Extra("protocols_covered", len(c08Protocols))
+	if n := len(sites["DefineProtocol("]); n != 0 && n != len(c08Protocols) {
+		t.Logf("WARNING: %d DefineProtocol call sites in the library sources but c08Protocols lists %d protocols: %v", n, len(c08Protocols), sites["DefineProtocol("])
+	}
 
 	run := func(f kit.Failer, c c08MsgCase) {
 		var in, out []messaging.Msg
@@ -278,7 +293,7 @@ func TestC08ValuesMessages(t *testing.T) {
 			if mv.Type >= len(types) || types[mv.Type].Name != mv.Name {
 				f.Fatalf("harness: case names message type %d/%s unknown to this tree", mv.Type, mv.Name)
 			}
-			m, v := buildMsg(types, mv, replayStream(mv.Stream), &fillOpts{}, "")
+			m, v := buildMsg(types, mv, replayStream(mv.Stream), &fillOpts{fillDash: documentedDash}, "")
 			in = append(in, m)
 			orig = append(orig, v)
 		}
@@ -286,7 +301,7 @@ func TestC08ValuesMessages(t *testing.T) {
 			if mv.Type >= len(types) || types[mv.Type].Name != mv.Name {
 				f.Fatalf("harness: case names message type %d/%s unknown to this tree", mv.Type, mv.Name)
 			}
-			m, v := buildMsg(types, mv, replayStream(mv.Stream), &fillOpts{}, c.Port)
+			m, v := buildMsg(types, mv, replayStream(mv.Stream), &fillOpts{fillDash: documentedDash}, c.Port)
 			out = append(out, m)
 			orig = append(orig, v)
 		}
@@ -358,7 +373,7 @@ func TestC08ValuesMessages(t *testing.T) {
 
 	kit.SetChecks(10_000, 50_000)
 	rapid.Check(t, func(rt *rapid.T) {
-		run(rt, genMsgCase(rt, types, func() *fillOpts { return &fillOpts{} }))
+		run(rt, genMsgCase(rt, types, func() *fillOpts { return &fillOpts{fillDash: documentedDash} }))
 	})
 }
 
@@ -377,15 +392,15 @@ func TestC08ValuesMessagesInvalidUTF8(t *testing.T) {
 	altered := map[string]int{}
 	kit.SetChecks(1_500, 5_000)
 	rapid.Check(t, func(rt *rapid.T) {
-		c := genMsgCase(rt, types, func() *fillOpts { return &fillOpts{invalidUTF8: true} })
+		c := genMsgCase(rt, types, func() *fillOpts { return &fillOpts{invalidUTF8: true, fillDash: documentedDash} })
 		var in, out []messaging.Msg
 		var orig []reflect.Value
 		for _, mv := range c.Incoming {
-			m, v := buildMsg(types, mv, replayStream(mv.Stream), &fillOpts{invalidUTF8: true}, "")
+			m, v := buildMsg(types, mv, replayStream(mv.Stream), &fillOpts{invalidUTF8: true, fillDash: documentedDash}, "")
 			in, orig = append(in, m), append(orig, v)
 		}
 		for _, mv := range c.Outgoing {
-			m, v := buildMsg(types, mv, replayStream(mv.Stream), &fillOpts{invalidUTF8: true}, c.Port)
+			m, v := buildMsg(types, mv, replayStream(mv.Stream), &fillOpts{invalidUTF8: true, fillDash: documentedDash}, c.Port)
 			out, orig = append(out, m), append(orig, v)
 		}
 		// (byte comparison off: encoding/json writes an invalid byte as the
@@ -449,7 +464,7 @@ func (h captureHandler) Handle(e timing.Event) error {
 }
 
 func buildEvent(ev c08EvVal, t0 uint64) (timing.Event, reflect.Value) {
-	v := newFilled(c08EventTypes[ev.Type], replayStream(ev.Stream), &fillOpts{})
+	v := newFilled(c08EventTypes[ev.Type], replayStream(ev.Stream), &fillOpts{fillDash: documentedDash})
 	base := v
 	if f := v.FieldByName("EventBase"); f.IsValid() {
 		base = f
@@ -481,6 +496,12 @@ func TestC08ValuesEvents(t *testing.T) {
 	s := kit.Begin(t, "C08", "values-events",
 		"0-6 events of the registered event types (timing.EventBase, modeling.TickEvent, modeling.TimerFiredEvent), all fields by reflection (ID, Secondary, time >= engine time incl. 2^64-1, handler id from a pool incl. empty / quoted / NUL / non-ASCII names) scheduled into a SerialEngine whose clock was first advanced to a drawn t0 by running one event; SaveCheckpoint -> LoadCheckpoint into a fresh engine with the same handlers -> Run with capturing handlers. Oracle: restored engine time equal; re-saved checkpoint byte-identical; dispatched sequence equals, element by element (dynamic type, DeepEqual), the sequence the original engine dispatches, and has the original length. Non-trivial: >=2 events, a secondary one or two at the same time")
 	defer s.End()
+	evSites := countCallSites("RegisterEvent(")
+	s.Extra("source_scan_RegisterEvent_call_sites", evSites["RegisterEvent("])
+	s.Extra("event_types_covered", len(c08EventTypes))
+	if n := len(evSites["RegisterEvent("]); n != 0 && n != len(c08EventTypes) {
+		t.Logf("WARNING: %d RegisterEvent call sites in the library sources but c08EventTypes lists %d types: %v", n, len(c08EventTypes), evSites["RegisterEvent("])
+	}
 	s.Assume("event type list = the three RegisterEvent call sites in /repo (timing/eventcodec.go, modeling/eventcodec.go); the codec's registry cannot be enumerated through exported API")
 
 	run := func(f kit.Failer, c c08EvCase) {
@@ -612,7 +633,7 @@ func TestC08ValuesEvents(t *testing.T) {
 		for i := 0; i < n; i++ {
 			ev := c08EvVal{Type: rapid.IntRange(0, len(c08EventTypes)-1).Draw(rt, "etype"), Handler: rapid.IntRange(0, len(c08Handlers)-1).Draw(rt, "handler")}
 			st := genStream(rt)
-			newFilled(c08EventTypes[ev.Type], st, &fillOpts{})
+			newFilled(c08EventTypes[ev.Type], st, &fillOpts{fillDash: documentedDash})
 			ev.Stream = st.rec
 			c.Events = append(c.Events, ev)
 		}
@@ -789,6 +810,16 @@ func (st *c08State) drain() []string {
 	return out
 }
 
+func kindOfOp(k string) string {
+	switch k {
+	case "push", "pop", "clear", "upd", "postpop":
+		return "buffer"
+	case "accept", "tick", "pclear":
+		return "pipeline"
+	}
+	return "lruset"
+}
+
 func kindOf(answer string) string {
 	k, _, _ := strings.Cut(answer, ":")
 	return k
@@ -813,7 +844,11 @@ func TestC08ValuesContainers(t *testing.T) {
 			}
 		})
 		if !okG {
-			s.Fail(f, c, sig, "while building the state: %s", msg)
+			// A container that panics while being driven inside its documented
+			// preconditions is some other property's business (C14/C15/C28),
+			// not a serialization verdict: no state to round-trip.
+			_ = msg
+			s.Note(c, false, "no-verdict:pre-ops-panicked:"+sig)
 			return
 		}
 		// what the cut looks like
@@ -902,7 +937,8 @@ func TestC08ValuesContainers(t *testing.T) {
 			}
 		}
 
-		// --- behaviour
+		// --- behaviour (failures are collected inside the guard and reported outside it)
+		var bSig, bMsg string
 		cmp := func(when string, a, b []string) bool {
 			for i := range a {
 				if i >= len(b) || a[i] != b[i] {
@@ -910,7 +946,8 @@ func TestC08ValuesContainers(t *testing.T) {
 					if i < len(b) {
 						bb = b[i]
 					}
-					s.Fail(f, c, kindOf(a[i])+"-diverges-after-restore:"+when, "%s: original answers %q, restored answers %q (checkpoint %s)", when, a[i], bb, saved)
+					bSig = kindOf(a[i]) + "-diverges-after-restore:" + when
+					bMsg = fmt.Sprintf("%s: original answers %q, restored answers %q (checkpoint %s)", when, a[i], bb, saved)
 					return false
 				}
 			}
@@ -920,11 +957,17 @@ func TestC08ValuesContainers(t *testing.T) {
 			if !cmp("view-at-restore", orig.view(), rest.view()) {
 				return
 			}
-			for i, op := range c.Post {
-				a := orig.apply(c, op)
-				b := rest.apply(c, op)
+			for _, op := range c.Post {
+				// a panic is an answer like any other: both sides must give it
+				guarded := func(st *c08State) (ans string) {
+					if ok, sig, _ := kit.Guard(func() { ans = st.apply(c, op) }); !ok {
+						return kindOfOp(op.K) + ":PANIC:" + sig
+					}
+					return ans
+				}
+				a := guarded(orig)
+				b := guarded(rest)
 				if !cmp(fmt.Sprintf("op:%s", op.K), []string{a}, []string{b}) {
-					_ = i
 					return
 				}
 			}
@@ -935,13 +978,18 @@ func TestC08ValuesContainers(t *testing.T) {
 			d1, e1 := json.Marshal(orig)
 			d2, e2 := json.Marshal(rest)
 			if e1 != nil || e2 != nil || !bytes.Equal(d1, d2) {
-				s.Fail(f, c, "state-final-remarshal-differs", "after the same operations: original %s, restored %s (%v %v)", d1, d2, e1, e2)
+				bSig = "state-final-remarshal-differs"
+				bMsg = fmt.Sprintf("after the same operations: original %s, restored %s (%v %v)", d1, d2, e1, e2)
 				return
 			}
 			cmp("lru-drain", orig.drain(), rest.drain())
 		})
 		if !okG {
 			s.Fail(f, c, sig, "%s", msg)
+			return
+		}
+		if bSig != "" {
+			s.Fail(f, c, bSig, "%s", bMsg)
 			return
 		}
 		if len(c.Post) > 0 {
@@ -1042,7 +1090,7 @@ func TestC08ValuesLibState(t *testing.T) {
 	// is stored instead (counted as excluded). The same rule applies when a
 	// case is rebuilt from its recorded draws.
 	libFill := func(typeName string, steered *int) *fillOpts {
-		return &fillOpts{skipCustom: true, hook: lruSetHook, steerOmitEmpty: func(path string) bool {
+		return &fillOpts{skipCustom: true, hook: lruSetHook, fillDash: documentedDash, steerOmitEmpty: func(path string) bool {
 			if _, known := s.IsKnown("state-nil-vs-empty:" + typeName + "." + path); known {
 				if steered != nil {
 					*steered++
